@@ -35,6 +35,7 @@ def observe(img: bytes, password):
         obs["open"] = "raise"
         obs["testzip"] = ("raise", type(ex).__name__)
         obs["test"] = ("raise", type(ex).__name__)
+        obs["path"] = ("raise", type(ex).__name__)
         return obs
     for what in ("testzip", "test"):
         try:
@@ -42,6 +43,22 @@ def observe(img: bytes, password):
                 obs[what] = ("ok", getattr(z, what)())
         except Exception as ex:
             obs[what] = ("raise", type(ex).__name__)
+    # extraction to a directory: files by their bytes, symbolic links by their text
+    import os
+    import shutil
+
+    from mc.lib7z import tree_snapshot
+
+    dest = os.path.join(os.getcwd(), "c04-dest")
+    shutil.rmtree(dest, ignore_errors=True)
+    try:
+        with py7zr.SevenZipFile(io.BytesIO(img), password=password) as z:
+            z.extractall(path=dest)
+        snap = tree_snapshot(dest)
+        obs["path"] = ("ok", sorted((k, v[1] if v[0] == "file" else v[1].encode()) for k, v in snap.items() if v[0] in ("file", "link")))
+    except Exception as ex:
+        obs["path"] = ("raise", type(ex).__name__)
+    shutil.rmtree(dest, ignore_errors=True)
     return obs
 
 
@@ -57,6 +74,13 @@ def judge(obs, pristine):
             elif pm[n] != d:
                 out.append(("altered-delivery", f"extraction succeeded and delivered {len(d)} different bytes for {n!r}"))
         same = sorted(val) == sorted(pristine)
+    pk, pv = obs.get("path", ("raise", None))
+    if pk == "ok":
+        for n, d in pv:
+            if n not in pm:
+                out.append(("renamed-delivery", f"extraction to a directory succeeded and created {n!r}, which the pristine archive does not have"))
+            elif pm[n] != d:
+                out.append(("altered-delivery", f"extraction to a directory succeeded and {n!r} holds different {'link text' if len(d) < 64 and b'/' not in d and n.endswith('link') else 'bytes'} ({d[:24]!r}...)"))
     tz = obs["testzip"]
     if tz == ("ok", None) and not same:
         out.append(("testzip-certifies-bad", f"testzip() reports no damage but extraction {'raised ' + str(val) if kind == 'raise' else 'does not deliver the pristine members'}"))
